@@ -53,7 +53,13 @@ EXPECTED_PROBES = ["partial_last_batch", "batch_larger_than_set", "grid_invert_b
 _ctx = {}
 
 
+_SETUP_DONE = []
+
+
 def setup():
+    if _SETUP_DONE:
+        return
+    _SETUP_DONE.append(1)
     m = tinyptycho.setup()
     from quantem.core.utils.utils import generate_batches, subdivide_batches
     from quantem.diffractive_imaging.ptycho_utils import SimpleBatcher
